@@ -88,7 +88,7 @@ func New(sig int64, exp int) Decimal {
 		sig *= -1
 	}
 
-	if exp < minUnbiasedExponent+19 {
+	if exp < minUnbiasedExponent-19 {
 		return zero(neg)
 	}
 
